@@ -15,7 +15,7 @@ L2_TRUST = ['L2 model (coq/theories/L2/Model.v): ONE queue with futures, three r
 PROPS = {
     'C01': {
         'correspondence': CORR_L1,
-        'coq': ['theories/Props/C01.vo', 'theories/Inst/C01_now.vo', 'theories/L2/PropsC01.vo', 'theories/L2/Inst.vo', 'theories/Inst/Fut_now.vo', 'theories/SyncFut/PropsC08.vo', 'theories/Inst/C08_now.vo'],
+        'coq': ['theories/Props/C01.vo', 'theories/Inst/C01_now.vo', 'theories/L2/PropsC01.vo', 'theories/L2/Inst.vo', 'theories/Inst/Fut_now.vo', 'theories/SyncFut/PropsC08.vo', 'theories/Inst/C08_now.vo', 'theories/Inst/Wrapper_now.vo'],
         'profiles': [prof('core', (60, 15), (1500, 60)), prof('sync', (40, 15), (800, 60)), prof('fut', (50, 15), (1000, 60)), prof('fsync', (30, 10), (600, 40)), prof('pipein', (20, 10), (400, 40), extra=['--max-steps', '30000']), prof('sweep:overlap_sweep.progs', (0, 2), (0, 12)), prof('progs:fut_extra.progs', (0, 60), (0, 1500)), prof('progs:cancel.progs', (0, 100), (0, 3000)), prof('progs:syncfut_extra.progs', (0, 20), (0, 300))],
         'monitors': ['C01'], 'liveness': False, 'panics': False,
         'trusted_base': L1_TRUST,
@@ -23,7 +23,7 @@ PROPS = {
     },
     'C03': {
         'correspondence': CORR_L1,
-        'coq': ['theories/Props/C03.vo', 'theories/Inst/C03_now.vo', 'theories/L1h/PropsC03once.vo', 'theories/L1h/Inst.vo', 'theories/L1b/PropsLbound.vo', 'theories/L1b/Inst.vo', 'theories/Inst/Fut_now.vo'],
+        'coq': ['theories/Props/C03.vo', 'theories/Inst/C03_now.vo', 'theories/L1h/PropsC03once.vo', 'theories/L1h/Inst.vo', 'theories/L1b/PropsLbound.vo', 'theories/L1b/Inst.vo', 'theories/Inst/Fut_now.vo', 'theories/Inst/Jobs_now.vo'],
         'profiles': [prof('pool', (80, 20), (2000, 80)), prof('core', (40, 10), (1000, 40), extra=['--min-pool', '1']), prof('fut', (50, 15), (1000, 60), extra=['--min-pool', '1']), prof('progs:fut_extra.progs', (0, 60), (0, 1500)), prof('progs:susp_extra.progs', (0, 60), (0, 1500))],
         'monitors': ['C03'], 'liveness': True, 'panics': False,
         'trusted_base': L1_TRUST,
@@ -39,7 +39,7 @@ PROPS = {
     },
     'C04': {
         'correspondence': CORR_L1,
-        'coq': ['theories/Props/C04.vo', 'theories/Inst/C04_now.vo', 'theories/L1h/PropsC04.vo', 'theories/L1h/Inst.vo', 'theories/L1b/PropsLbound.vo', 'theories/L1b/Inst.vo', 'theories/L1z/PropsC04zero.vo', 'theories/L1z/Inst.vo', 'theories/Inst/Fut_now.vo', 'theories/L2/PropsC06.vo', 'theories/L2/Inst.vo'],
+        'coq': ['theories/Props/C04.vo', 'theories/Inst/C04_now.vo', 'theories/L1h/PropsC04.vo', 'theories/L1h/Inst.vo', 'theories/L1b/PropsLbound.vo', 'theories/L1b/Inst.vo', 'theories/L1z/PropsC04zero.vo', 'theories/L1z/Inst.vo', 'theories/Inst/Fut_now.vo', 'theories/L2/PropsC06.vo', 'theories/L2/Inst.vo', 'theories/Inst/Jobs_now.vo'],
         'profiles': [prof('sync', (80, 20), (2000, 80)), prof('core', (40, 10), (800, 40)), prof('pool', (30, 10), (600, 40)), prof('fut', (40, 15), (800, 60), extra=['--max-pool', '1']), prof('progs:fut_extra.progs', (0, 60), (0, 1500)), prof('progs:susp_extra.progs', (0, 60), (0, 1500))],
         'monitors': ['C04'], 'liveness': True, 'panics': True,
         'trusted_base': L1_TRUST,
@@ -47,7 +47,7 @@ PROPS = {
     },
     'C05': {
         'correspondence': CORR_L1,
-        'coq': ['theories/L1h/PropsC05.vo', 'theories/L1h/Inst.vo', 'theories/Inst/Fut_now.vo'],
+        'coq': ['theories/L1h/PropsC05.vo', 'theories/L1h/Inst.vo', 'theories/Inst/Fut_now.vo', 'theories/Inst/Wrapper_now.vo'],
         'profiles': [prof('drop', (80, 20), (2000, 80)), prof('core', (30, 10), (600, 40)), prof('pipein', (40, 15), (600, 60), extra=['--max-steps', '30000']), prof('pipedrop', (30, 10), (400, 40), extra=['--max-steps', '30000']), prof('sweep:drop_sweep.progs', (0, 2), (0, 12), extra=['--max-steps', '30000']), prof('progs:fut_extra.progs', (0, 60), (0, 1500))],
         'monitors': ['C05'], 'liveness': True, 'panics': True,
         'trusted_base': L1_TRUST + ['drop is modelled as what the code does: a final sync whose closure frees the value (fact drop_is_sync_free)'],
@@ -63,14 +63,14 @@ PROPS = {
     },
     'C07': {
         'correspondence': CORR_L2,
-        'coq': ['theories/L2/PropsC07.vo', 'theories/L2/Inst.vo', 'theories/Inst/Fut_now.vo'],
+        'coq': ['theories/L2/PropsC07.vo', 'theories/L2/Inst.vo', 'theories/Inst/Fut_now.vo', 'theories/Inst/Jobs_now.vo'],
         'profiles': [prof('fut', (100, 20), (2500, 60)), prof('sweep:wake_sweep.progs', (0, 2), (0, 12)), prof('progs:fut_extra.progs', (0, 60), (0, 1500))],
         'monitors': ['C07', 'C03'], 'liveness': True, 'panics': True,
         'trusted_base': L2_TRUST,
         'assumptions': ['proved (C07_full_L2): a result is resolved at most once, only after the operation signalled, with its own value; no would-panic state is reachable; poll stores the task waker in the critical section in which it found the result missing and signal takes and calls it; the task invariant (Inv_task) holds in every reachable state; and C07_complete_L2: with >= 1 pool runner, in every terminal state with all events fired every actor is done (each awaiting caller has received its result, each pool runner is idle). With zero pool runners: C06_zero_pool_L2. The model is ONE queue; several objects by exploration'],
     },
     'C08': {
-        'coq': ['theories/SyncFut/PropsC08.vo', 'theories/Inst/C08_now.vo'],
+        'coq': ['theories/SyncFut/PropsC08.vo', 'theories/Inst/C08_now.vo', 'theories/Inst/Jobs_now.vo'],
         'profiles': [prof('fsync', (100, 20), (2500, 60)), prof('progs:cancel.progs', (0, 400), (0, 6000))],
         'correspondence': {'kind': 'syncfut', 'profiles': [prof('fsync', (60, 5), (600, 10)), prof('progs:syncfut_extra.progs', (0, 10), (0, 60)), prof('progs:cancel.progs', (0, 10), (0, 60))]},
         'monitors': ['C08', 'C01', 'C02', 'C05'], 'liveness': True, 'panics': True,
@@ -127,7 +127,7 @@ PROPS = {
     },
     'C14': {
         'correspondence': CORR_L1,
-        'coq': ['theories/Props/C14.vo', 'theories/Inst/C14_now.vo', 'theories/Inst/Fut_now.vo', 'theories/L2/PropsC01.vo', 'theories/L2/Inst.vo'],
+        'coq': ['theories/Props/C14.vo', 'theories/Inst/C14_now.vo', 'theories/Inst/Fut_now.vo', 'theories/L2/PropsC01.vo', 'theories/L2/Inst.vo', 'theories/Inst/Jobs_now.vo', 'theories/Inst/Wrapper_now.vo'],
         'profiles': [prof('drop', (60, 15), (1500, 60)), prof('sync', (40, 10), (800, 40)), prof('fsync', (100, 20), (1500, 60)), prof('progs:cancel.progs', (0, 400), (0, 6000)), prof('pipedrop', (30, 10), (400, 40), extra=['--max-steps', '30000']), prof('progs:fut_extra.progs', (0, 60), (0, 1500))],
         'monitors': ['C14', 'C05', 'C01', 'C08', 'C02'], 'liveness': False, 'panics': True,
         'trusted_base': L1_TRUST + ['memory as ghost state: the model speaks about WHEN closures, values and job storage are used, not about Rust-level aliasing or layout'],
